@@ -87,6 +87,42 @@ def generate(g, tier):
             text = (f'DEFAULT_DELAY {a}\nREPEAT 2\n    {kw} $DEFAULT_DELAY<{lim}\n        DEFAULT_DELAY $DEFAULT_DELAY+{step}\n    STRING round\nSTRING end')
             exp = [f'DEFAULT_DELAY {a}'] + [f'DEFAULT_DELAY {a + (i + 1) * step}' for i in range(n)] + ['STRING round', 'STRING round', 'STRING end']
         cases.append(dict(op='compile', timeout=60, src=dict(text=text), meta=dict(family='loop-reads-other-state', expout=exp, nocorr=False)))
+    # one execution of a loop in which DIFFERENT iterations end in different ways, in every order: a schedule assigns each
+    # counter value one of pass / continue / break / return (the last inside a function), so a CONTINUE in an early iteration is
+    # followed by a BREAK or RETURN in a later one, a CONTINUE by a CONTINUE, … — for REPEAT/FOR and for WHILE, with every alias
+    for _ in range(count(tier, 60, 600)):
+        n = r.randint(2, 6)
+        sched = [r.choice(['pass', 'pass', 'cont', 'cont', 'brk', 'ret']) for _ in range(n)]
+        if g.chance(0.5) and 'cont' not in sched[:-1]: sched[r.randrange(n - 1)] = 'cont'
+        infunc = 'ret' in sched
+        head = r.choice(['REPEAT i,{n}', 'FOR i,{n}', 'WHILE i,i<{n}']).format(n=n)
+        lines, exp = [], []
+        ind = '    ' if infunc else ''
+        if infunc: lines.append('FUNCTION f')
+        lines.append(ind + head)
+        lines.append(ind + '    $STRING "top "+i')
+        deep = g.chance(0.3)
+        for k, s in enumerate(sched):
+            if s == 'pass': continue
+            word = dict(cont=r.choice(['CONTINUELOOP', 'CONTINUE', 'CONTINUE_LOOP']), brk=r.choice(['BREAKLOOP', 'BREAK_LOOP']), ret='RETURN')[s]
+            lines.append(ind + f'    IF i=={k}')
+            if deep:
+                lines.append(ind + '        IF TRUE')
+                lines.append(ind + '            ' + word)
+            else:
+                lines.append(ind + '        ' + word)
+        lines.append(ind + '    $STRING "it "+i')
+        if infunc:
+            lines += ['    STRING fell-through', 'RUN f']
+        lines.append('STRING after')
+        stopped = None
+        for k, s in enumerate(sched):
+            exp.append(f'STRING top {k}')
+            if s == 'pass': exp.append(f'STRING it {k}')
+            elif s in ('brk', 'ret'): stopped = s; break
+        if infunc and stopped != 'ret': exp.append('STRING fell-through')
+        exp.append('STRING after')
+        cases.append(dict(op='compile', timeout=60, src=dict(text='\n'.join(lines)), meta=dict(family='signal-schedule', expout=exp)))
     return cases
 
 
